@@ -326,6 +326,7 @@ def _run_task_symbolic(modname, params, opts, t0):
     mod = importlib.import_module(modname)
     eng = Engine(timeout_ms=opts.get("timeout_ms", 10000), max_depth=opts.get("max_depth", 400),
                  max_paths=opts.get("max_paths", 20000), nonlinear=getattr(mod, "NONLINEAR", "nra"),
+                 max_task_s=opts.get("max_task_s"),
                  logic=getattr(mod, "LOGIC", None))
     inp = SymInputs(eng)
     lg, lgs = SymLogic(0), SymLogic(SLACK)
@@ -392,6 +393,7 @@ def _run_task_symbolic(modname, params, opts, t0):
                                       "model": _ser_model(ob.model), "slack_model": ob.slack_model})
     res["nontrivial"] = res["obligations"] - trivial[0]
     res["stats"] = eng.stats
+    res["slow_obligations"] = [(round(t, 2), nm) for t, nm in sorted(eng.ob_times, reverse=True)[:4]]
     res["paths"] = len(paths)
     res["samples"] = sample_smt
     # ---- cross-check material: predicted outputs under concrete valuations
